@@ -77,7 +77,8 @@ def job(j: dict) -> dict:
     """One CLI invocation = one fresh process (fork): (probe file, settings variant, command)."""
     import yaml
     drive.preload()
-    sb = {"no": "", "python": "#!/usr/bin/env python3\n", "bash": "#!/bin/bash\n"}[j["shebang"]]
+    sb = {"no": "", "python": "#!/usr/bin/env python3\n", "pythonAbs": "#!/usr/bin/python3 -u\n", "bash": "#!/bin/bash\n",
+          "shNote": "#!/bin/sh\n# wrapper that used to start python tooling\n"}[j["shebang"]]
     variant, cmd = j["variant"], j["cmd"]
     root = Path(j["root"])
     root.mkdir(parents=True)
